@@ -64,7 +64,6 @@ import (
 	"net/url"
 	"os"
 	"path"
-	"sort"
 	"strconv"
 	"strings"
 	"testing"
@@ -1066,31 +1065,13 @@ func classifyPath(c Case, p string) string {
 
 func knownOTLP() map[string]func(Case, vk.Violation) bool {
 	return map[string]func(Case, vk.Violation) bool{
-		// WithCompression(<neither NoCompression nor GzipCompression>) on an HTTP
-		// exporter: newRequest leaves bodyReader nil, request.reset calls it.
-		"otlp_http_undefined_compression_option_panics": func(c Case, v vk.Violation) bool {
-			return v.Kind == "panic" && !isGRPC(c.Exporter) && c.Setting == "compression" &&
-				c.Opt.State == invalid && c.badOf(0).kind == "undefined_enum"
-		},
-		// otlploghttp: generic endpoint whose base path ends in "/" => "<base>/" + "/v1/logs".
-		"otlploghttp_generic_endpoint_trailing_slash": func(c Case, v vk.Violation) bool {
-			if v.Kind != "path_mismatch" || c.Exporter != "otlploghttp" {
-				return false
-			}
-			e := expect(c)
-			obs, _ := v.Observed.(string)
-			_ = e
-			return pathDecider(c) == 2 && strings.HasSuffix(c.Gen.Path, "/") && obs == c.Gen.Path+"/v1/logs"
-		},
 		// otlptracehttp / otlpmetrichttp: the path of the signal-specific endpoint
 		// goes through path.Clean (trailing slash lost) instead of being used verbatim.
 		"otlp_http_signal_endpoint_path_cleaned": func(c Case, v vk.Violation) bool {
 			if v.Kind != "path_mismatch" || (c.Exporter != "otlptracehttp" && c.Exporter != "otlpmetrichttp") {
 				return false
 			}
-			e := expect(c)
 			obs, _ := v.Observed.(string)
-			_ = e
 			return pathDecider(c) == 1 && len(c.Sig.Path) > 1 && strings.HasSuffix(c.Sig.Path, "/") && obs == path.Clean(c.Sig.Path)
 		},
 	}
@@ -1118,14 +1099,4 @@ func TestOTLPPrecedence(t *testing.T) {
 		Known:       knownOTLP(),
 		CaseTimeout: 3 * time.Minute,
 	})
-}
-
-// sortedKeys is a small helper for deterministic iteration.
-func sortedKeys[V any](m map[string]V) []string {
-	ks := make([]string, 0, len(m))
-	for k := range m {
-		ks = append(ks, k)
-	}
-	sort.Strings(ks)
-	return ks
 }
